@@ -53,6 +53,28 @@ func rawBalance(v *big.Int) []byte {
 	return append([]byte{1}, varBytes(common.BigIntToNeoBytes(v))...)
 }
 
+// Words and addresses are drawn from shapes that have a short Coq form (see coqWord).
+func wordLow(n uint32) []byte {
+	b := make([]byte, 32)
+	binary.BigEndian.PutUint32(b[28:], n)
+	return b
+}
+func wordHigh(n uint32) []byte {
+	b := make([]byte, 32)
+	binary.BigEndian.PutUint32(b[:4], n)
+	return b
+}
+func (g *hgen) word() []byte {
+	switch g.c.Intn(3) {
+	case 0:
+		return wordLow(g.c.Rng.Uint32())
+	case 1:
+		return wordHigh(g.c.Rng.Uint32() | 0x80000000)
+	default:
+		return wordLow(uint32(g.c.Intn(300)))
+	}
+}
+
 // ---------- generator ----------
 
 type hgen struct {
@@ -100,7 +122,7 @@ func (g *hgen) value() string {
 		}
 		return hx.Hex(b)
 	default:
-		return hx.Hex(g.c.Bytes(32))
+		return hx.Hex(g.word())
 	}
 }
 
@@ -221,15 +243,19 @@ func (g *hgen) universe(nAddr, nSlot int) {
 				a[j] = 0xff
 			}
 			a[19] = byte(0xff - i)
+		case 2:
+			copy(a[:], g.c.Bytes(20)) // fully random (long literal)
+		case 3, 4:
+			binary.BigEndian.PutUint32(a[:4], g.c.Rng.Uint32())
 		default:
-			copy(a[:], g.c.Bytes(20))
+			binary.BigEndian.PutUint32(a[16:], g.c.Rng.Uint32())
 		}
 		dup := false
 		for _, x := range g.h.Addrs {
 			dup = dup || x == hx.Hex(a[:])
 		}
 		if dup {
-			a[0] ^= byte(i + 1)
+			a[3] ^= byte(i + 1)
 		}
 		g.h.Addrs = append(g.h.Addrs, hx.Hex(a[:]))
 	}
@@ -238,15 +264,21 @@ func (g *hgen) universe(nAddr, nSlot int) {
 		switch g.c.Intn(4) {
 		case 0:
 			s[31] = byte(i)
+		case 1:
+			if g.c.Intn(4) == 0 {
+				copy(s[:], g.c.Bytes(32)) // fully random (long literal)
+			} else {
+				copy(s[:], g.word())
+			}
 		default:
-			copy(s[:], g.c.Bytes(32))
+			copy(s[:], g.word())
 		}
 		dup := false
 		for _, x := range g.h.Slots {
 			dup = dup || x == hx.Hex(s[:])
 		}
 		if dup {
-			s[0] ^= byte(i + 1)
+			s[3] ^= byte(i + 1)
 		}
 		g.h.Slots = append(g.h.Slots, hx.Hex(s[:]))
 	}
